@@ -309,6 +309,30 @@ func ruleV13(c *Ctx) {
 		}
 	}
 	c.Oblige("syntax-check-error-returned", f.Pos(), retErr, "the error of CheckNextValue is not returned before the target is touched")
+	// the pre-validation is told whether this is the last value, exactly as the caller of unmarshalDecode was
+	// (trailing garbage after the last value must be found before the target is written)
+	var lastParam *types.Var
+	if f.Obj != nil {
+		sig := f.Obj.Type().(*types.Signature)
+		for i := 0; i < sig.Params().Len(); i++ {
+			if b, ok := sig.Params().At(i).Type().(*types.Basic); ok && b.Kind() == types.Bool {
+				lastParam = sig.Params().At(i)
+			}
+		}
+	}
+	okLast, nChk := true, 0
+	InspectNoLit(f.Body(), func(nd ast.Node) bool {
+		if call, ok := nd.(*ast.CallExpr); ok {
+			if _, ok := MethodCall(info, call, "jsontext", "decoderState", "CheckNextValue"); ok && len(call.Args) == 1 {
+				nChk++
+				if lastParam == nil || IdentObj(info, call.Args[0]) != lastParam {
+					okLast = false
+				}
+			}
+		}
+		return true
+	})
+	c.Oblige("syntax-check-covers-trailing-input", f.Pos(), nChk > 0 && okLast, "CheckNextValue is not given unmarshalDecode's own `last` argument: with a constant, trailing bytes after the final value are only noticed after the target was modified")
 }
 
 func ruleV14(c *Ctx) {
